@@ -42,6 +42,11 @@ func makeStdTree(root string) {
 	os.WriteFile(filepath.Join(root, "d", "h"), []byte("hello from h\n"), 0o644)
 	os.WriteFile(filepath.Join(root, "f"), []byte("0123456789abcdefghijklmnopqrstuvwxyz"), 0o644)
 	os.WriteFile(filepath.Join(root, "g"), []byte("gggg"), 0o644)
+	// owners the host has no names for (when the harness may chown): same number for user
+	// and group, different numbers, a known user with an unknown group
+	os.Chown(filepath.Join(root, "f"), 54321, 54321)
+	os.Chown(filepath.Join(root, "g"), 54321, 54322)
+	os.Chown(filepath.Join(root, "d", "h"), 0, 54323)
 }
 
 // newUfsH starts the bundled Unix file server on root.
